@@ -30,6 +30,24 @@ theorem no_float_detour :
     ((kindCases.filter (fun r => r.1 == "toDecimal" && !(r.2.1.contains "float32") && !(r.2.1.contains "float64"))).all
       (fun r => r.2.2.all (fun c => !floatish c))) = true := by decide
 
+/-- the modelled conversion functions: the only places where the Go kind of a number is inspected -/
+def kindFamily : List String :=
+  ["toDecimal", "toFloat", "toFloatPair", "toInt", "isNumber", "isTrue", "typeName", "toNumber"]
+
+def callersOfKind (f : String) : List String := (kindCallers.filter (fun r => r.1 == f)).flatMap (fun r => r.2)
+
+/-- `f` is one of the conversion functions, or a helper all of whose callers (up to `n` levels) are -/
+def kindConfined : Nat → String → Bool
+  | 0, f => kindFamily.contains f
+  | n + 1, f => kindFamily.contains f || (!(callersOfKind f).isEmpty && (callersOfKind f).all (kindConfined n))
+
+/-- [C14, C05, C20, C13] **the Go kind of a number is inspected only inside the modelled conversion functions**: every
+evaluator function with a type switch or type assertions over two or more numeric kinds is `toDecimal`, `toInt`,
+`toFloat`, `toFloatPair`, `isNumber`, `isTrue`, `typeName`, `toNumber` or a helper reached only from them. A
+comparison, sum or sort that looks at the representation itself (a machine-word or binary64 shortcut: seeded M02, M07,
+M10) adds such a function outside the family. -/
+theorem kind_dispatch_confined : kindSwitchFuncs.all (kindConfined 4) = true := by decide
+
 /-- [C12] the node types by which the evaluator recognises a string slice -/
 theorem slice_nodes : sameSet sliceNodes ["SliceNode", "SliceCurrentNode", "SliceStepNode", "SliceStepCurrentNode"] = true := by decide
 
